@@ -1,4 +1,4 @@
 From Coq Require Import Extraction ExtrOcamlBasic List ZArith.
-From MirV Require Import C14.DataSection.
+From MirV Require Import C14.DataSection C14.Labels.
 Extraction Language OCaml.
-Extraction "c14x.ml" layout place_of sec_alloc image members is_data_like load_check tsize Z.add Z.mul Z.of_nat.
+Extraction "c14x.ml" layout place_of sec_alloc image members is_data_like load_check tsize Z.add Z.mul Z.of_nat label_addr last_label thread_label.
